@@ -13,3 +13,8 @@ func TestS2(t *testing.T) {
 	hk.RunSub(t, hk.Sub[Plan]{Name: "s2/grpc-native", Quick: 200, Thorough: 2000, Gen: Gen("grpc"), Run: Run, Journal: true})
 	hk.RunSub(t, hk.Sub[Plan]{Name: "s2/grpc-fallback", Quick: 200, Thorough: 2000, Gen: Gen("grpc-fallback"), Run: Run, Journal: true})
 }
+
+// TestS4 is the stress variant: real goroutines over a slow persistent-backed state.
+func TestS4(t *testing.T) {
+	hk.RunSub(t, hk.Sub[SPlan]{Name: "s4/backed-slow", Quick: 60, Thorough: 600, Gen: GenS, Run: RunS, Journal: true})
+}
